@@ -50,6 +50,12 @@ def ev(S, F, x, asg, tabs=None):
     if k == "cpath":
         if len(x) > 2 and isinstance(x[2], int):
             return x[2]
+        cv = asg.get("cpath_values") or {}
+        if x[1] in cv:
+            return cv[x[1]]
+        last = x[1].rsplit("::", 1)[-1]
+        if last in cv:
+            return cv[last]
         raise Unknown(sym.fmt(n(x)))
     if k == "cast":
         v = ev(S, F, x[3], asg, tabs)
